@@ -4,11 +4,12 @@ W="${1:-0}"; N="${2:-1}"
 i=0
 for d in /tmp/seedwork/C*/out; do
   id=$(basename $(dirname $d))
-  for k in 1 2 3; do
+  for k in 1 2 3 4; do
     [ -f "$d/patch_$k.diff" ] || continue
     i=$((i+1))
     [ $((i % N)) -eq "$W" ] || continue
-    [ -f "/verif/seeded/$id-$k/eval.log" ] && grep -q "^check $id" "/verif/seeded/$id-$k/eval.log" && continue
+    name="$id-$k"; [ -n "${ROUND:-}" ] && name="$id-$ROUND-$k"
+    [ -f "/verif/seeded/$name/eval.log" ] && grep -q "^check $id" "/verif/seeded/$name/eval.log" && continue
     SEED_SCRATCH=/tmp/hm-mut-w$W /verif/tools/seed_eval.sh $id $k
   done
 done
